@@ -78,7 +78,7 @@ theorem sliceByLine_fast_stop (cfg : Config) (m : MatcherI) (inp : Bytes) (hbin 
     rw [begin_allCont]
     simp only [if_true]
     rw [detectBinary_none hbin rfl]
-    simp [sliceLoop, st0, Core.new, finish, emit_allCont, byteCount, Run.events, grepSpec, splitLines,
+    simp [sliceLoop, st0, Core.new, finish, emit_allCont, byteCount, ite_self, Run.events, grepSpec, splitLines,
       grepSpecLines, effective, stopTrunc, offsetAt]
   -- the lines, and the part of them that counts
   have hlenF := linesOf_length cfg m inp
@@ -293,7 +293,7 @@ theorem sliceByLine_fast_stop (cfg : Config) (m : MatcherI) (inp : Bytes) (hbin 
         rw [← hl]; simp
   dsimp only
   rw [hloop]
-  simp only [finish, emit_allCont, byteCount, hbo, Run.events]
+  simp only [finish, emit_allCont, byteCount, ite_self, hbo, Run.events]
   exact ⟨hev, trivial⟩
 
 end RgVerif.Searcher
